@@ -208,6 +208,14 @@ def run_case(case):
                     for en, val in values.items():
                         vec[en].value = comp_dev.py_value(val) if isinstance(val, dict) else val
                     vec.submit()
+                elif op[0] == "ca":
+                    # assign without submitting: the values stay pending on the client until submit(), whatever arrives meanwhile
+                    _, ci, dev, prop, values = op
+                    vec = clients[ci][dev][prop]
+                    for en, val in values.items():
+                        vec[en].value = comp_dev.py_value(val) if isinstance(val, dict) else val
+                elif op[0] == "cs":
+                    clients[op[1]][op[2]][op[3]].submit()
                 elif op[0] == "lagbatch":
                     # several driver operations back to back while the server->client direction of client ci's CONTROL
                     # connection lags behind its BLOB connection (a legitimate network schedule); then everything is delivered
@@ -306,6 +314,11 @@ def run_impl(case, outcome):
                 for di, dev in enumerate(o["drivers"]):
                     qs.append(Query("spec c01 %s %s %s" % (not case["clients"][ci].startswith("snoop"), dev, mir), "True", "oracle",
                                     "after %r client %d (%s) does not see device %d as it is" % (op[:5], ci, case["clients"][ci], di)))
+        if n and "C06" in want and op[0] == "cs":
+            # the submit of an earlier assignment: the values are those of the matching "ca"
+            prior = [o2 for o2 in case["ops"][:n - 1] if o2[0] == "ca" and o2[1:4] == op[1:4]]
+            if prior:
+                op = ["cw"] + prior[-1][1:]
         if n and "C06" in want and op[0] == "cw":
             _, ci, dname, prop, values = op
             before, after = obs[n - 1], o
@@ -357,6 +370,12 @@ def run_impl(case, outcome):
                 mop = "cw %d %s %s %s" % (op[1], enc_str(op[2]), enc_str(op[3]), enc_list(lambda x: x, ws))
             elif op[0] == "hs":
                 mop = "hs %d %s %s" % (op[1], enc_opt(op[2] if len(op) > 2 else None), enc_opt(op[3] if len(op) > 3 else None))
+            elif op[0] == "cs":
+                prior = [o2 for o2 in case["ops"][:n] if o2[0] == "ca" and o2[1:4] == op[1:4]]
+                if not prior:
+                    continue
+                ws = ["%s %s" % (enc_str(en), comp_cli.enc_cval(comp_dev.py_value(val) if isinstance(val, dict) else val)) for en, val in prior[-1][4].items()]
+                mop = "cw %d %s %s %s" % (op[1], enc_str(op[2]), enc_str(op[3]), enc_list(lambda x: x, ws))
             else:
                 continue
             b, a = obs[n], obs[n + 1]
@@ -525,6 +544,39 @@ def gen_c06(rng, tier):
                "ops": ops, "oracles": ["C06", "C01"]}
 
 
+def gen_c06_pending(rng, tier):
+    """a value assigned on the client stays pending until submit(): an update of the same element arriving in between (the device
+    moved on, another client wrote, the echo of an earlier write) must not make the later submit lose it"""
+    n = 120 if tier == "thorough" else 24
+    for _ in range(n):
+        devices = simple_devices(rng, 1)
+        for d in devices:
+            for g in d["groups"]:
+                g["enabled"] = True
+                for v in g["vectors"]:
+                    v["enabled"] = True
+        d = merged_of(devices[0])
+        w = client_write_op(rng, 0, devices[0])
+        if not w:
+            continue
+        _, ci, dname, prop, values = w
+        gi, vi = [(gi, vi) for gi, g in enumerate(d["groups"]) for vi, v in enumerate(g["vectors"]) if v["name"] == prop][0]
+        v = d["groups"][gi]["vectors"][vi]
+        names = [e["name"] for e in v["elements"]]
+        ops = [["ca", 0, dname, prop, values]]
+        # meanwhile: the driver changes the same elements, and/or a second client writes them
+        for en in list(values)[:2]:
+            ei = names.index(en)
+            ops.append(["a", 0, gi, vi, ei, comp_dev.random_value(rng, v["kind"])])
+        if rng.random() < 0.5:
+            w2 = client_write_op(rng, 1, devices[0])
+            if w2:
+                ops.append(w2)
+        ops.append(["cs", 0, dname, prop])
+        yield {"op": "sys", "devices": devices, "clients": ["net", "net"], "frag": rng.choice(["1024", "1", "random"]), "frag_seed": rng.randrange(10 ** 6),
+               "ops": ops, "oracles": ["C06", "C01"]}
+
+
 def blob_device():
     return {"name": "CAM", "groups": [{"key": "g0", "name": "G0", "enabled": True, "vectors": [
         {"key": "v0", "name": "IMG", "kind": "blob", "state": "Ok", "enabled": True, "perm": "rw", "timeout": 0,
@@ -552,6 +604,14 @@ def gen_c08(rng, tier):
             if size <= 1300 or thorough or (frag == "1024" and size in (1536, 3000)):
                 yield {"op": "sys", "devices": [blob_device()], "clients": ["net"], "frag": frag, "frag_seed": rng.randrange(10 ** 6),
                        "ops": [["cw", 0, "CAM", "IMG", {"img": {"b": data.hex(), "fmt": ".bin"}}], ["cw", 0, "CAM", "TXT", {"t": "after"}]], "oracles": ["C06", "C01"]}
+    # a driver that keeps one BLOB object per element (a frame buffer), refills it and publishes it again: same length, longer, shorter
+    for frag in ["1024", "random"]:
+        frames = [bytes(rng.randrange(256) for _ in range(n)) for n in (300, 300, 300, 1200, 40, 40, 0, 300)]
+        ops = [["a", 0, 0, 0, 0, {"b": frames[0].hex(), "fmt": ".fits"}]]
+        for fr in frames[1:]:
+            ops.append([rng.choice(["a", "s"]), 0, 0, 0, 0, {"b": fr.hex(), "fmt": ".fits", "reuse": True}])
+        ops.append(["a", 0, 0, 1, 0, {"t": "after"}])
+        yield {"op": "sys", "devices": [blob_device()], "clients": ["net", "snoop:0"], "frag": frag, "frag_seed": rng.randrange(10 ** 6), "ops": ops, "oracles": ["C08", "C01"]}
     # all 256 byte values, empty, partial follow-ups
     yield {"op": "sys", "devices": [blob_device()], "clients": ["net", "net"], "frag": "random", "frag_seed": 1,
            "ops": [["a", 0, 0, 0, 0, {"b": bytes(range(256)).hex(), "fmt": ".bin"}], ["a", 0, 0, 0, 1, {"b": "", "fmt": ".e"}], ["a", 0, 0, 0, 0, None],
